@@ -72,6 +72,14 @@ def r2_grid(ctx, repo):
     fn = cls.methods.get("generate")
     C = "UniformGenerator.generate"
     selfn = func_params(fn)[0]
+    from ..astutil import loose_isclose
+    li = loose_isclose(fn)
+    if li:
+        c_, relv, absv = li[0]
+        ctx.violated("R2", C, where(cls.module, c_), "a level is left out when it is close to another one (%s, relative %g, absolute %g): for a parameter whose grid spacing is below that "
+                     "tolerance (small bounds, or a narrow range at a large offset) distinct levels are merged, the parameter gets fewer than k levels and the grid does not reach the "
+                     "upper bound" % (text(c_)[:70], relv, absv))
+        return
     T = Terms(fn)
     ploops = [s for s in fn.body if isinstance(s, ast.For) and access_path(T.expand(s.iter, at=s)) == selfn + ".parameters"]
     if len(ploops) != 1 or not isinstance(ploops[0].target, ast.Name):
